@@ -72,7 +72,9 @@ func (c Config) Class() string {
 
 // OrderedMerge is the order-sensitive, nil-revealing merge operator of
 // DESIGN.md C08: FullMerge(k, existing, [o...]) folds
-// (existing==nil ? "∅" : existing) + "|" + o ; PartialMerge refuses.
+// (existing==nil ? "∅" : existing) + "|" + o ; an empty operand on an
+// existing value returns that value unchanged (same slice); PartialMerge
+// refuses.
 type OrderedMerge struct{}
 
 // Name implements moss.MergeOperator.
@@ -90,8 +92,14 @@ func (OrderedMerge) FullMerge(key, existing []byte, operands [][]byte) ([]byte, 
 // PartialMerge implements moss.MergeOperator.
 func (OrderedMerge) PartialMerge(key, l, r []byte) ([]byte, bool) { return nil, false }
 
-// MergeFold is the model-side fold of one operand.
+// MergeFold is the model-side fold of one operand.  An empty operand is
+// the identity on an existing value and hands that very slice back (like a
+// max / first-write-wins operator would): a copying Get of such a key must
+// still return bytes that survive closing everything.
 func MergeFold(key, existing, operand []byte) []byte {
+	if len(operand) == 0 && existing != nil {
+		return existing
+	}
 	var out []byte
 	if existing == nil {
 		out = append(out, "\xe2\x88\x85"...) // "∅"
